@@ -4,6 +4,17 @@ package ratelimit
 
 import "time"
 
+// verifFind looks key up by iterating, so the accessors do not depend on the
+// map's key type (the driver must keep building when the store is re-keyed).
+func verifFind(s *LimiterStore, key uint64) (*timestampedLimiter, bool) {
+	for k, tl := range s.limiters {
+		if uint64(k) == key {
+			return tl, true
+		}
+	}
+	return nil, false
+}
+
 // VerifLimiterKeys lists the keys currently held by the store (under the
 // read lock). Accessor only.
 func VerifLimiterKeys(s *LimiterStore) []uint64 {
@@ -11,7 +22,7 @@ func VerifLimiterKeys(s *LimiterStore) []uint64 {
 	defer s.mu.RUnlock()
 	out := make([]uint64, 0, len(s.limiters))
 	for k := range s.limiters {
-		out = append(out, k)
+		out = append(out, uint64(k))
 	}
 	return out
 }
@@ -21,7 +32,7 @@ func VerifLimiterKeys(s *LimiterStore) []uint64 {
 func VerifLimiterHas(s *LimiterStore, key uint64) bool {
 	s.mu.RLock()
 	defer s.mu.RUnlock()
-	_, ok := s.limiters[key]
+	_, ok := verifFind(s, key)
 	return ok
 }
 
@@ -30,7 +41,7 @@ func VerifLimiterHas(s *LimiterStore, key uint64) bool {
 // touched. Returns the number of tokens taken. Accessor only.
 func VerifLimiterSpend(s *LimiterStore, key uint64) int {
 	s.mu.RLock()
-	tl, ok := s.limiters[key]
+	tl, ok := verifFind(s, key)
 	s.mu.RUnlock()
 	if !ok {
 		return 0
@@ -46,7 +57,7 @@ func VerifLimiterSpend(s *LimiterStore, key uint64) int {
 // ServeDNS does after a cookie round trip. Accessor only.
 func VerifLimiterSetCookie(s *LimiterStore, key uint64, cookie string) {
 	s.mu.RLock()
-	tl, ok := s.limiters[key]
+	tl, ok := verifFind(s, key)
 	s.mu.RUnlock()
 	if ok {
 		tl.limiter.cookie.Store(cookie)
@@ -64,7 +75,7 @@ func VerifLimiterUnlock(s *LimiterStore) { s.mu.Unlock() }
 // for d) instead of sleeping. Timestamp shifter only.
 func VerifLimiterAge(s *LimiterStore, key uint64, d time.Duration) {
 	s.mu.RLock()
-	tl, ok := s.limiters[key]
+	tl, ok := verifFind(s, key)
 	s.mu.RUnlock()
 	if ok {
 		tl.lastSeen.Store(tl.lastSeen.Load() - int64(d))
